@@ -187,6 +187,8 @@ def _shortcut_by_scenario(prog, rep, sc, ds):
                 l, r = src(t.left), src(t.comparators[0])
                 op = t.ops[0]
                 sl = {f"{subj}.{x}" for x in slot_kinds}
+                l = f"{subj}.{state['alias'][l]}" if state["alias"].get(l) is not None else l
+                r = f"{subj}.{state['alias'][r]}" if state["alias"].get(r) is not None else r
                 if l in sl and r in sl and l != r:
                     if isinstance(op, (ast.Is, ast.Eq)):
                         return same
@@ -198,7 +200,7 @@ def _shortcut_by_scenario(prog, rep, sc, ds):
                         state["consulted"] = True
                         v = state["fs_none"]
                         return v if isinstance(op, (ast.Is, ast.Eq)) else (not v)
-                    if state["alias"].get(other) is not None or other in sl:
+                    if state["alias"].get(other) is not None or other in sl or other.startswith(subj + "."):
                         state["cmp_ops"].append(type(op).__name__)
                         state["compared"] = True
                         d = state["differs"]
@@ -211,12 +213,20 @@ def _shortcut_by_scenario(prog, rep, sc, ds):
             return None
 
         def on_stmt(st, state):
+            if isinstance(st, ast.Assign) and len(st.targets) == 1 and isinstance(st.targets[0], ast.Tuple) and isinstance(st.value, ast.Tuple) and len(st.targets[0].elts) == len(st.value.elts):
+                # lhs, rhs = node.left, node.right
+                for t_, v_ in zip(st.targets[0].elts, st.value.elts):
+                    if isinstance(t_, ast.Name):
+                        on_stmt(ast.Assign(targets=[t_], value=v_), state)
+                return
             if isinstance(st, (ast.Assign, ast.AnnAssign)) and getattr(st, "value", None) is not None:
                 tg = st.targets[0] if isinstance(st, ast.Assign) else st.target
                 if isinstance(tg, ast.Name):
                     v = st.value
                     vs = src(v)
                     hit = [sl for sl in slot_kinds if vs == f"{subj}.{sl}"]
+                    if not hit and isinstance(v, ast.Name) and state["alias"].get(v.id) is not None and tg.id != "found_source":
+                        hit = [state["alias"][v.id]]        # alias of an alias
                     if tg.id == "found_source":
                         srcslot = hit[0] if hit else state["alias"].get(vs)
                         if srcslot is not None:
@@ -361,7 +371,21 @@ def check(prog, rep):
                 rep.ob("R16.1", f"{k}.get_variables", both, f".{slot}: variable containers and expression vectors are both handled" if both else f".{slot} may hold a VectorVariable or a VectorExpression but only one of the two is handled", loc=gv.loc, detail=f"slot:{slot}:both-kinds")
     for c in ("VectorExpression", "MatrixExpression"):
         gv = prog.cls(c).methods.get("get_variables")
-        ok = gv is not None and any(isinstance(n, (ast.For, ast.comprehension)) for n in ast.walk(gv.node)) and any(isinstance(n, ast.Call) and isinstance(n.func, ast.Attribute) and n.func.attr == "get_variables" for n in ast.walk(gv.node)) and "_expressions" in src(gv.node)
+        ok = False
+        if gv is not None:
+            # some loop / comprehension over the elements of self (self._expressions, nested rows, self.flatten(), iter(self))
+            # on whose loop variable get_variables() is called
+            for n in ast.walk(gv.node):
+                if isinstance(n, (ast.For, ast.comprehension)) and any(isinstance(x, ast.Name) and x.id == "self" for x in ast.walk(n.iter)):
+                    tgt = {x.id for x in ast.walk(n.target) if isinstance(x, ast.Name)}
+                    body_nodes = ast.walk(n) if isinstance(n, ast.For) else ast.walk(getattr(n, "_parent", n))
+                    inner = set(tgt)
+                    # nested loop over the outer loop variable (for row in self._expressions: for e in row)
+                    for m_ in (ast.walk(n) if isinstance(n, ast.For) else []):
+                        if isinstance(m_, (ast.For, ast.comprehension)) and any(isinstance(x, ast.Name) and x.id in tgt for x in ast.walk(m_.iter)):
+                            inner |= {x.id for x in ast.walk(m_.target) if isinstance(x, ast.Name)}
+                    if any(isinstance(c, ast.Call) and isinstance(c.func, ast.Attribute) and c.func.attr == "get_variables" and isinstance(c.func.value, ast.Name) and c.func.value.id in inner for c in body_nodes):
+                        ok = True
         rep.ob("R16.1", f"{c}.get_variables", ok, "unions get_variables() over all element expressions" if ok else "does not union the variables of all element expressions", loc=gv.loc if gv else prog.cls(c).loc, detail="elements")
 
     # ------------------------------------------------------------------ R16.2
@@ -389,7 +413,12 @@ def check(prog, rep):
     scope = helper_closure(prog, pv)
     rep.saw("Problem.variables closure", [f.qual.split(":")[1] for f in scope])
     uses = [(f, c) for f in scope for c in calls(f.node) if dotted(c.func) == sc.name and c.args]
-    obj_use = [(f, c) for f, c in uses if "_objective" in src(c.args[0])]
+    def _is_objective(f, a):
+        if "_objective" in src(a) or src(a).endswith(".objective"):
+            return True
+        return isinstance(a, ast.Name) and any(isinstance(v, ast.AST) and ("_objective" in src(v) or src(v).endswith(".objective")) for v in local_assignments(f.node).get(a.id, []))
+
+    obj_use = [(f, c) for f, c in uses if _is_objective(f, c.args[0])]
     loop_use = [(f, c) for f, c in uses if ".expr" in src(c.args[0])]
     if not uses:
         rep.ob("R16.3", "Problem.variables", True, "the single-vector shortcut is not used", loc=pv.loc, detail="all-constraints-agree")
@@ -506,8 +535,21 @@ def check(prog, rep):
         rep.ob("R16.6", "Problem.variables", True, "variables are collected through a set (one entry per name)", loc=pv.loc, detail="set")
     else:
         rep.pin("Problem.variables shape rules", "R16.6", "Problem.variables", False, "variables are not de-duplicated through a set", loc=pv.loc, detail="set")
-    covers_obj = any(dotted(c.func) == "get_all_variables" and c.args and "_objective" in src(c.args[0]) for f in scope for c in calls(f.node))
+    covers_obj = any(dotted(c.func) == "get_all_variables" and c.args and _is_objective(f, c.args[0]) for f in scope for c in calls(f.node))
     covers_con = any(isinstance(n, (ast.For, ast.GeneratorExp, ast.ListComp, ast.SetComp)) and ("_constraints" in src(getattr(n, "iter", None) or n.generators[0].iter)) and "get_all_variables(" in src(n) for f in scope for n in walk_local(f.node))
+    if not (covers_obj and covers_con):
+        # or: one loop over a local list that was built from the objective and every constraint's expression
+        for f in scope:
+            for loop in [n for n in walk_local(f.node) if isinstance(n, ast.For) and isinstance(n.iter, ast.Name) and isinstance(n.target, ast.Name)]:
+                if not any(isinstance(c, ast.Call) and dotted(c.func) == "get_all_variables" and c.args and src(c.args[0]) == loop.target.id for c in ast.walk(loop)):
+                    continue
+                L = loop.iter.id
+                feeds = [v for v in local_assignments(f.node).get(L, []) if isinstance(v, ast.AST)]
+                feeds += [c.args[0] for c in walk_local(f.node) if isinstance(c, ast.Call) and isinstance(c.func, ast.Attribute) and c.func.attr in ("extend", "append") and src(c.func.value) == L and c.args]
+                has_obj = any(_is_objective(f, x) for v in feeds for x in ast.walk(v) if isinstance(x, (ast.Name, ast.Attribute)))
+                has_con = any("_constraints" in src(v) or ".constraints" in src(v) for v in feeds)
+                covers_obj = covers_obj or has_obj
+                covers_con = covers_con or has_con
     rep.pin("Problem.variables shape rules", "R16.6", "Problem.variables", covers_obj and covers_con, "the general path unions the objective and every constraint" if covers_obj and covers_con else "the general path does not union the variables of the objective and of every constraint", loc=pv.loc, detail="union")
     for fi_, d_ in ((walker, d), (sc, ds)):
         if d_ is None:
@@ -518,7 +560,7 @@ def check(prog, rep):
     rep.expect_min("R16.1", 25)
     rep.expect_min("R16.2", 10)
     rep.expect_min("R16.3", 11)
-    rep.expect_min("R16.4", 4)
+    rep.expect_min("R16.4", 3)
     rep.explanation = (
         "Per-node completeness of get_variables against the operand slots declared by each constructor; the discovery "
         "walker and the single-vector shortcut are checked arm by arm for conservativeness (record / push all children / "
